@@ -58,9 +58,15 @@ func (f *StructField) validate() error {
 	t := f.Type
 
 	switch {
+	case t.Kind == KindAny, t.Kind == KindAnyMessage:
+		// Builtin, but not value types
 	case t.builtin():
 		return nil
 	case t.Kind == KindStruct:
+		// Structs are embedded by value and cannot contain themselves
+		if next := t.Ref.Struct; next == f.Struct || next.contains(f.Struct, make(map[*Struct]struct{})) {
+			return fmt.Errorf("%v: recursive struct, %v contains itself", f.Name, f.Struct.Def.Name)
+		}
 		return nil
 	case t.Kind == KindEnum:
 		return nil
